@@ -36,6 +36,7 @@ def parseEdit (fs : List String) : Option Edit :=
   | ["di", k] => some (.delInput (nat! k))
   | ["do", k] => some (.delOutput (nat! k))
   | ["ap", n, m] => some (.addProcessor (nat! n) (nat! m))
+  | ["apr", n, m] => some (.addProcessor (nat! n) (nat! m))   -- same effect, the domain is reused
   | ["ab", a, b] => some (.addBond (parseName a) (parseName b))
   | ["db", i] => some (.delBond (nat! i))
   | ["at", a, b] => some (.attach (parseName a) (parseName b))
@@ -94,6 +95,9 @@ def step (s : St) (line : String) : St × List String :=
   let fs := fields line
   match fs with
   | "H" :: _ => ({}, [line])
+  | "E" :: "adom" :: _ =>
+    -- a domain without a processor: no topology effect at all
+    ({ s with edit := none, modelPrev := s.model }, [line, dumpTopo s.model false])
   | "E" :: rest =>
     match parseEdit rest with
     | some e =>
